@@ -62,7 +62,10 @@ def execute(p, chooser):
 
     def exc(e):
         if e not in obs["excs"]:
-            obs["excs"][e] = (FXE if e % 3 == 0 else XE)("e%d" % e)
+            from concurrent.futures import CancelledError
+            # besides ordinary exceptions: falsy ones, and types the future / iteration machinery gives a meaning of its own
+            cls = FXE if e % 3 == 0 else CancelledError if e % 7 == 1 else StopIteration if e % 7 == 2 else XE
+            obs["excs"][e] = cls("e%d" % e)
         return obs["excs"][e]
 
     def main():
